@@ -7,7 +7,7 @@ git -C $WT checkout -q -- . && git -C $WT clean -fdq
 cd $WT
 # demos written in an agent's own worktree may assert that xgcm is imported from there: point them at this worktree
 PID=$(echo "$D" | sed -n 's#.*_\(C[0-9][0-9]\)/.*#\1#p')
-sed "s#/tmp/wt_$PID#$WT#g" $D/demo.py > /tmp/confirm_demo.py
+sed -e "s#/tmp/wt_$PID#$WT#g" -e "s#/tmp/wt6_$PID#$WT#g" $D/demo.py > /tmp/confirm_demo.py
 PYTHONPATH=$WT$EXTRA /venv/bin/python /tmp/confirm_demo.py > /tmp/confirm_without.log 2>&1; A=$?
 git -C $WT apply $D/patch.diff || { echo "patch does not apply"; exit 2; }
 PYTHONPATH=$WT$EXTRA /venv/bin/python /tmp/confirm_demo.py > /tmp/confirm_with.log 2>&1; B=$?
